@@ -119,22 +119,25 @@ def c17_3(ctx):
     if len(inc) != 1:
         raise AnalysisError('load_line_objects: expected one _handle_include_file call')
     node = inc[0][0]
-    ifs = [i for i in walk_no_nested(load.node) if isinstance(i, ast.If) and any(x is node for x in ast.walk(i))]
-    inner = min(ifs, key=lambda i: i.end_lineno - i.lineno)
+    from rules.shared import IncludeRegion
+    reg = IncludeRegion(ctx, load, node)
+    g = ctx.cfg(load)
     res = resolver(ctx, load, inline=False)
-    st = next((n for n in walk_no_nested(inner) if isinstance(n, ast.Assign) and n.value is node), None)
+    st = next((n for n in reg.stmts if isinstance(n, ast.Assign) and n.value is node), None)
     v = unparse(st.targets[0]) if st is not None else None
-    ext = [c for c in ast.walk(inner) if isinstance(c, ast.Call) and isinstance(c.func, ast.Attribute) and c.func.attr == 'extend' and c.args
-           and (c.args[0] is node or (v is not None and unparse(c.args[0]) == v))]
+    ext = reg.calls(lambda c: isinstance(c.func, ast.Attribute) and c.func.attr == 'extend' and c.args
+                    and (c.args[0] is node or (v is not None and unparse(c.args[0]) == v)))
     out = next((unparse(r.value) for r in returns(load) if r.value is not None), None)
-    ok = len(ext) == 1 and unparse(ext[0].func.value) == out and isinstance(inner.body[-1], ast.Continue)
+    # every way from the include call back to the loop header passes the one splice, and nothing leaves the loop from there
+    through = len(ext) == 1 and g.all_paths_through(g.node_of(node), reg.header, {g.node_of(ext[0])}) and not reg.leaves_loop
+    ok = len(ext) == 1 and unparse(ext[0].func.value) == out and through
     ctx.check(ok, 'splice:in-place', load.site(node), 'the included file\'s lines are appended at the point of inclusion, then the next line is read', f'{[unparse(x) for x in ext]} -> {out}')
-    other = [s for s in inner.body if not (isinstance(s, ast.If) and 'currently_active' in unparse(s.test)) and s is not st and not (isinstance(s, ast.Expr) and s.value in ext)
-             and not isinstance(s, ast.Continue)]
-    ctx.check(not other, 'splice:nothing-else', load.site(other[0]) if other else load.site(node),
+    other = [s_ for s_ in reg.stmts if s_ is not st and not (isinstance(s_, ast.Expr) and s_.value in ext) and not isinstance(s_, (ast.Continue, ast.Pass))]
+    other_t = [t_ for t_ in reg.tests if 'currently_active' not in unparse(t_)]
+    ctx.check(not other and not other_t, 'splice:nothing-else', load.site(other[0]) if other else load.site(node),
               'the include branch does nothing else (it neither scans the included lines nor touches the includer\'s state)',
-              '; '.join(unparse(o)[:90] for o in other))
-    assigns = [unparse(t) for s in inner.body for n in ast.walk(s) if isinstance(n, (ast.Assign, ast.AugAssign)) for t in (n.targets if isinstance(n, ast.Assign) else [n.target])]
+              '; '.join(unparse(o)[:90] for o in other + other_t))
+    assigns = reg.assigned()
     for var, what in (('current_scope', 'local-label region'), ('current_memzone', 'selected memory zone')):
         ctx.check(var not in assigns, f'continues:{var}', load.site(node), f'the includer\'s {what} continues unchanged after the include', f'assigned in the include branch: {assigns}')
     # "as if pasted in place": text pasted after a #mute is muted, and a #mute inside it stays in force after it
@@ -147,9 +150,11 @@ def c17_3(ctx):
     b = bind_args(node, ctx.repo.func(AF + '._handle_include_file'))
     ok = all(unparse(b.get(n_)) == n_ for n_ in ('line_id', 'isa_model', 'memzone_manager', 'preprocessor', 'include_paths', 'assembly_files_used'))
     ctx.check(ok, 'splice:shared-context', load.site(node), 'the include is processed with the includer\'s model, zones, symbols, search path and loaded-file set', unparse(node)[:200])
-    # recognition of the directive
-    t = inner.test
-    ctx.check(unparse(t) == "line_str.startswith('#include')", 'splice:directive-recognised', load.site(inner), 'lines starting with #include are handled here', unparse(t))
+    # recognition of the directive: the include call is reached exactly under the `#include` prefix test, and such a line never
+    # reaches the statement parser
+    t = reg.test
+    ctx.check(t is not None and unparse(t) == "line_str.startswith('#include')", 'splice:directive-recognised', load.site(node),
+              'lines starting with #include are handled here', unparse(t) if t is not None else 'no dominating test on the #include prefix')
 
 
 def c17_5(ctx):
